@@ -61,15 +61,20 @@ def rule_x86(ctx, R, F):
                     n = ev.ub(top['a'][2], {})
                     # the increment may follow directly or after the enclosing if/else
                     inc = None
+                    same_expr = False
                     for nxt in stmts[idx + 1:idx + 2]:
                         t2 = strip_all(nxt)
                         if t2['k'] == 'CAssign' and show(t2['l']) == 'this->codePos' and t2['op'] == '+=':
                             inc = ev.ub(t2['r'], {})
+                            same_expr = show(t2['r']) == show(top['a'][2])      # the same size expression on both sides needs no numeric bound
+                    if same_expr:
+                        R.ok('%s: memcpy of %s' % (f['name'], show(top['a'][2])), loc(top, f), detail='position advanced by the identical expression')
+                        continue
                     if inc is None:
                         # search the statement following the enclosing if in the parent compound
                         inc = find_following_increment(f, comp, ev)
                     R.check(n is not None and inc is not None and n == inc, '%s: memcpy of %s' % (f['name'], show(top['a'][2])), loc(top, f), expected='position advanced by the copied size (%s)' % n, found='advanced by %s' % inc)
-    if checked < 6:
+    if checked < 3:
         raise AnalysisBroken('CG-SIZE-X86: only %d memcpy(code + codePos, ...) sites found' % checked)
     # per-handler maxima (margins; the buffer obligations above are the hard ones)
     mx = F.const('randomx::MaxRandomXInstrCodeSize') if F.has_glob('randomx::MaxRandomXInstrCodeSize') else None
